@@ -32,7 +32,8 @@ Lemma C09_source_obligations :
   Gen.ClientWalks.translator_ok
   && Gen.ClientWalks.upload_relative_fixed
   && Gen.ClientWalks.upload_final_destination_ok && Gen.ClientWalks.upload_children_use_relative
-  && Gen.ClientWalks.download_final_destination_ok && Gen.ClientWalks.download_child_ok = true.
+  && Gen.ClientWalks.download_final_destination_ok && Gen.ClientWalks.download_child_ok
+  && Gen.ClientWalks.lister_queue_unbounded && Gen.ClientWalks.upload_queue_unbounded = true.
 Proof. vm_compute. reflexivity. Qed.
 
 (* ---------------------------------------------------------------------------------------------- *)
@@ -161,6 +162,39 @@ Theorem C09_list_recursive_exact : forall cwd fs p t fuel,
             Permutation l (map (fun e => (mkp (p_abs p) (fst e), snd e)) (entries (p_parts p) t)).
 Proof. exact list_recursive_exact. Qed.
 Print Assumptions C09_list_recursive_exact.
+
+(* ---------------------------------------------------------------------------------------------- *)
+(* WIDTH.  The recursive lister is a worklist algorithm (cls.directories: append / popleft).  From EVERY
+   state of the walk -- a current directory and a queue qr of pending directories of ANY length -- it
+   returns what it had accumulated plus every entry below the current directory and below every pending
+   directory, each exactly once: nothing that was queued is dropped, however many directories wait at
+   once.  (C09_list_recursive_exact is the instance qr = [], acc = []; it already quantifies over every
+   tree, hence every width; this is the invariant that carries it.)  That the real queue has no bound
+   either is the source fact lister_queue_unbounded in C09_source_obligations. *)
+Theorem C09_list_worklist_any_length : forall cwd fs ab fuel rel ch qr acc,
+  q_ok cwd fs ab ((rel, ch) :: qr) ->
+  (qsize ((rel, ch) :: qr) <= fuel)%nat ->
+  exists l,
+    list_loop fuel cwd fs true (mkp ab rel) (map (fun rc => mkp ab (fst rc)) qr) acc = Ok (acc ++ l) /\
+    Permutation l (map (item_of ab) (qnodes ((rel, ch) :: qr))).
+Proof. exact list_worklist_complete. Qed.
+Print Assumptions C09_list_worklist_any_length.
+
+(* for EVERY n: the directory with n sub-directories, each holding one file (n directories pending at once
+   after the first listing), is listed with exactly its 2n entries *)
+Theorem C09_list_every_width : forall n,
+  exists l, list_path (S (2 * n)) [] (wide n) true (mkp true []) = Ok l /\
+            length l = (2 * n)%nat /\
+            Permutation l (map (fun e => (mkp true (fst e), snd e)) (entries [] (wide n))).
+Proof. exact list_wide_complete. Qed.
+Print Assumptions C09_list_every_width.
+
+(* the absence of a bound is load-bearing: the same loop over a collections.deque(maxlen=2) (a full queue
+   discards from the LEFT on append) returns 5 of the 6 entries of a directory with three sub-directories *)
+Example C09_bounded_queue_loses_entries :
+  (exists l, list_path 10 [] wide3 true (mkp true []) = Ok l /\ length l = 6%nat) /\
+  (exists l, list_loop_bounded 2 10 [] wide3 (mkp true []) [] [] = Ok l /\ length l = 5%nat).
+Proof. exact bounded_queue_loses_entries. Qed.
 
 (* ---------------------------------------------------------------------------------------------- *)
 (* Recursive remove deletes the subtree (exactly: the result is remove_at fs a, entry order included),
